@@ -123,6 +123,8 @@ pub struct G<'a> {
     scopes: Vec<Vec<VarInfo>>,
     next: usize,
     fnctx: Option<FnCtx>,
+    /// result types of the lambdas being generated (innermost last): `return` inside a lambda body
+    lam_ret: Vec<T>,
     loop_depth: usize,
     lambda_depth: usize,
     /// > 0 while generating code that runs during iteration over an array variable
@@ -578,7 +580,9 @@ impl<'a> G<'a> {
         self.scopes = vec![cap, ps.iter().map(|(n, t)| VarInfo { name: n.clone(), ty: t.clone(), mutable: false, captured: false }).collect()];
         let saved_loop = std::mem::replace(&mut self.loop_depth, 0);
         self.lambda_depth += 1;
+        self.lam_ret.push(ret.clone());
         let body = if self.t.flip(1, 3) { E::Blk(self.block(Some(ret), d.saturating_sub(1), 2)) } else { self.expr(ret, d.saturating_sub(1)) };
+        self.lam_ret.pop();
         self.lambda_depth -= 1;
         self.loop_depth = saved_loop;
         self.scopes = saved;
@@ -1041,7 +1045,8 @@ impl<'a> G<'a> {
         let assignable = self.assignable();
         let arrs: Vec<VarInfo> = self.visible().into_iter().filter(|v| matches!(v.ty, T::Arr(_))).collect();
         let in_loop = self.loop_depth > 0;
-        let in_fn = self.fnctx.is_some() && self.lambda_depth == 0;
+        // an early `return` leaves the innermost function: the named function, or the lambda being generated
+        let in_fn = (self.fnctx.is_some() && self.lambda_depth == 0) || (self.lambda_depth > 0 && !self.lam_ret.is_empty());
         let d1 = d.saturating_sub(1);
         let loops_ok = self.fl.loops && d > 0 && self.loop_depth < 2;
         // [let, print, assign, opassign, if, while, for-int, for-arr, for-range, break/continue, push, index-assign, expr-call, letpat, return]
@@ -1242,7 +1247,12 @@ impl<'a> G<'a> {
             }
             _ => {
                 self.label("early-return");
-                let ret = self.fnctx.as_ref().unwrap().ret.clone();
+                let ret = if self.lambda_depth > 0 {
+                    self.label("return-in-lambda");
+                    self.lam_ret.last().unwrap().clone()
+                } else {
+                    self.fnctx.as_ref().unwrap().ret.clone()
+                };
                 let c = self.expr(&T::Bool, d1);
                 let e = self.expr(&ret, d1);
                 S::If(c, Block { stmts: vec![S::Return(Some(e))], tail: None }, None)
@@ -1367,6 +1377,7 @@ pub fn generate(tape: &[u16], fl: &Flags) -> Prog {
         scopes: vec![vec![]],
         next: 0,
         fnctx: None,
+        lam_ret: vec![],
         loop_depth: 0,
         lambda_depth: 0,
         no_len_mut: 0,
